@@ -12,7 +12,7 @@ def insertSorted (x : String) : List String → List String
 def sortStrs (l : List String) : List String := l.foldl (fun acc x => insertSorted x acc) []
 
 def evConn : Ev → ConnId
-  | .push c .. => c | .item c .. => c | .removal c _ => c | .unsub c _ => c | .disc c _ => c
+  | .push c .. => c | .item c .. => c | .removal c _ => c | .unsub c _ => c | .disc c _ => c | .err c _ => c
 
 def evStr : Ev → String
   | .push _ k v _ delta res =>
@@ -21,6 +21,7 @@ def evStr : Ev → String
   | .removal _ k => s!"{k}=x"
   | .unsub _ code => s!"unsub:{code}"
   | .disc _ code => s!"disc:{code}"
+  | .err _ code => s!"err:{code}"
 
 def stStr (s : St) : String :=
   if !s.chanExists then "st=none" else
@@ -78,6 +79,18 @@ def step' (s : Option St) (line : String) : Option St × String :=
         | none => (s, "bad-op")
         | some n => if st.cfg.versionless then (s, "err " ++ render st []) else go (.pub k n (ep e) d)
       | ["rvk", k] => go (.rvk k)
+      | ["bgpub", k, v, e, d] =>
+        match v.toNat? with
+        | none => (s, "bad-op")
+        | some n =>
+          if st.cfg.versionless || st.stalled.isSome || (subscribersOf st k).length > 1 then (s, "bad-op")
+          else go (.bgpub k n (ep e) d)
+      | ["rel"] => go .rel
+      | ["trkd", c, k, v] =>
+        match v.toNat?, alookup c st.conns with
+        | some n, some _ => go (.trkd c k n)
+        | _, _ => (s, "bad-op")
+      | ["tcb"] => if st.ptracks.isEmpty then (s, "bad-op") else go .tcb
       | _ => (s, "bad-op")
 
 def main : IO Unit := do
